@@ -49,6 +49,7 @@ type Gen struct {
 	MultiTx     float64 // probability that an actor sends a further tx in the same block
 	Actors      []*chain.Actor
 	Pool3       bool
+	LevPool2    bool // a second oracle pool (uelys/uusdc) with leveragelp and a perpetual market exists (w.ElysMarketPool)
 	names       []string
 	total       int
 }
@@ -132,6 +133,12 @@ func (g *Gen) Op(name string, ac *chain.Actor, ctx sdk.Context) sdk.Msg {
 			rcp = g.otherAddr(ac)
 		}
 		min := math.NewInt(1)
+		if w.ElysMarketPool != 0 && r.Intn(6) == 0 {
+			if r.Intn(2) == 0 {
+				return &ammtypes.MsgSwapExactAmountIn{Sender: me, Routes: []ammtypes.SwapAmountInRoute{{PoolId: w.ElysMarketPool, TokenOutDenom: "uelys"}}, TokenIn: chain.CoinI("uusdc", g.Amt(1, 5e10)), TokenOutMinAmount: min, Recipient: rcp}
+			}
+			return &ammtypes.MsgSwapExactAmountIn{Sender: me, Routes: []ammtypes.SwapAmountInRoute{{PoolId: w.ElysMarketPool, TokenOutDenom: "uusdc"}}, TokenIn: chain.CoinI("uelys", g.Amt(1, 2e10)), TokenOutMinAmount: min, Recipient: rcp}
+		}
 		switch r.Intn(6) {
 		case 0:
 			return &ammtypes.MsgSwapExactAmountIn{Sender: me, Routes: []ammtypes.SwapAmountInRoute{{PoolId: 1, TokenOutDenom: "uatom"}}, TokenIn: chain.CoinI("uusdc", g.Amt(1, 5e10)), TokenOutMinAmount: min, Recipient: rcp}
@@ -208,6 +215,10 @@ func (g *Gen) Op(name string, ac *chain.Actor, ctx sdk.Context) sdk.Msg {
 		return &banktypes.MsgSend{FromAddress: me, ToAddress: zero, Amount: cs}
 	case "joinSingle":
 		d := []string{"uusdc", "uatom"}[r.Intn(2)]
+		if w.ElysMarketPool != 0 && r.Intn(4) == 0 {
+			d = []string{"uusdc", "uelys"}[r.Intn(2)]
+			return &ammtypes.MsgJoinPool{Sender: me, PoolId: w.ElysMarketPool, MaxAmountsIn: sdk.NewCoins(chain.CoinI(d, g.Amt(1e3, 5e10))), ShareAmountOut: math.NewInt(1)}
+		}
 		return &ammtypes.MsgJoinPool{Sender: me, PoolId: 1, MaxAmountsIn: sdk.NewCoins(chain.CoinI(d, g.Amt(1e3, 5e10))), ShareAmountOut: math.NewInt(1)}
 	case "joinAll":
 		pid := uint64(2)
@@ -236,6 +247,9 @@ func (g *Gen) Op(name string, ac *chain.Actor, ctx sdk.Context) sdk.Msg {
 		if g.Pool3 && r.Intn(3) == 0 {
 			pid = 3
 		}
+		if w.ElysMarketPool != 0 && r.Intn(4) == 0 {
+			pid = w.ElysMarketPool
+		}
 		have := c.GetCommittedAmountForDenom(ammtypes.GetPoolShareDenom(pid))
 		if !have.IsPositive() {
 			return nil
@@ -243,6 +257,9 @@ func (g *Gen) Op(name string, ac *chain.Actor, ctx sdk.Context) sdk.Msg {
 		out := ""
 		if pid == 1 && r.Intn(2) == 0 {
 			out = []string{"uusdc", "uatom"}[r.Intn(2)]
+		}
+		if pid == w.ElysMarketPool && r.Intn(2) == 0 {
+			out = []string{"uusdc", "uelys"}[r.Intn(2)]
 		}
 		sh := have.QuoRaw(int64(2 + r.Intn(8)))
 		if g.hostile() {
@@ -269,6 +286,9 @@ func (g *Gen) Op(name string, ac *chain.Actor, ctx sdk.Context) sdk.Msg {
 			sl = chain.DecF(0.5 + r.Float64())
 		}
 		pid := uint64(1)
+		if g.LevPool2 && w.ElysMarketPool != 0 && r.Intn(3) == 0 {
+			pid = w.ElysMarketPool
+		}
 		if r.Intn(8) == 0 {
 			// aim at the vault's lending cap: borrow the headroom +- a little (leverage 2 borrows the collateral)
 			p := a.StablestakeKeeper.GetParams(ctx)
@@ -373,6 +393,19 @@ func (g *Gen) Op(name string, ac *chain.Actor, ctx sdk.Context) sdk.Msg {
 			case 2:
 				lev = 1.01
 			}
+		}
+		if g.LevPool2 && w.ElysMarketPool != 0 && r.Intn(3) == 0 {
+			// the second market: ELYS on the second oracle pool
+			el := w.Prices["ELYS"]
+			ratio := el.Quo(atom)
+			c2 := col
+			if c2 == "uatom" {
+				c2 = "uelys"
+			}
+			if !sl.IsZero() {
+				sl = sl.Mul(ratio)
+			}
+			return &perptypes.MsgOpen{Creator: me, Position: pos, Leverage: chain.DecF(lev), TradingAsset: "uelys", Collateral: chain.CoinI(c2, g.Amt(1e4, 5e9)), TakeProfitPrice: tp.Mul(ratio), StopLossPrice: sl, PoolId: w.ElysMarketPool}
 		}
 		return &perptypes.MsgOpen{Creator: me, Position: pos, Leverage: chain.DecF(lev), TradingAsset: "uatom", Collateral: chain.CoinI(col, g.Amt(1e4, 5e9)), TakeProfitPrice: tp, StopLossPrice: sl, PoolId: 1}
 	case "perpClose":
